@@ -212,8 +212,11 @@ class Anchors:
                        for _, _, _, c in F.call_sites(f))
         free_fns = [f for f in F.fns if f.kind == 'Fn']
         self._set('open_file', self._unique([f for f in free_fns if has_std_open(f)], 'open_file'), 'free function calling std OpenOptions::open')
-        self._set('init_file', self._unique([f for f in free_fns if writes_file(f) and f in F.reachable_fns([oo] if oo else [])], 'init_file'),
-                  'free function reachable from OpenOptions::open that writes the file')
+        # the creation function: the free function OpenOptions::open calls that writes the file, itself or through free helpers of its own (`write_fully(&mut file, ..)`)
+        init_c = [f for f in free_fns if f in called and any(writes_file(g) for g in F.reachable_fns([f]) if g.kind == 'Fn')]
+        if not init_c:
+            init_c = [f for f in free_fns if writes_file(f) and f in F.reachable_fns([oo] if oo else [])]
+        self._set('init_file', self._unique(init_c, 'init_file'), 'free function called by OpenOptions::open that writes the file')
         # ---- the bucket deletion walk: InnerBucket method calling both the tx free role and the map view
         txf, mvw = self.roles.get('tx-free-role'), self.roles.get('map-view')
         dw = [f for f in self._methods_of('InnerBucket') if txf in cg.get(f, ()) and mvw in cg.get(f, ())]
